@@ -349,6 +349,10 @@ func (p *H265AggregationPacket) Unmarshal(payload []byte) ([]byte, error) { //no
 	for {
 		unit := H265AggregationUnit{}
 
+		if len(payload) == 0 {
+			break
+		}
+
 		if p.mightNeedDONL {
 			if len(payload) < 1 {
 				break
@@ -361,13 +365,13 @@ func (p *H265AggregationPacket) Unmarshal(payload []byte) ([]byte, error) { //no
 		}
 
 		if len(payload) < 2 {
-			break
+			return nil, errShortPacket
 		}
 		unit.nalUnitSize = (uint16(payload[0]) << 8) | uint16(payload[1])
 		payload = payload[2:]
 
 		if len(payload) < int(unit.nalUnitSize) {
-			break
+			return nil, errShortPacket
 		}
 
 		unit.nalUnit = payload[:unit.nalUnitSize]
